@@ -202,3 +202,23 @@ M("poo-rho-grid", "PyXAB/algos/POO.py", "rho = self.rhomax ** (2 * self.N / (2 *
 M("poo-nu-scaled", "PyXAB/algos/POO.py", "                        nu=self.numax,\n                        rho=rho,\n                        domain", "                        nu=self.numax * 0.5,\n                        rho=rho,\n                        domain", ["C10"])
 M("poo-creation-counter", "PyXAB/algos/POO.py", "            if self.counter >= np.ceil(self.n / self.N):", "            if self.counter >= np.ceil(self.n / self.N) + (self.N == 8):", ["C10"])
 M("poo-pull-vs-receive-cursor", "PyXAB/algos/POO.py", "            algo = self.V_algo[self.algo_counter]\n            point = algo.pull(time)", "            algo = self.V_algo[self.algo_counter - (self.algo_counter == 3)]\n            point = algo.pull(time)", ["C10", "C04"])
+
+# ---- Zooming (C11)
+M("zooming-index-constant", "PyXAB/algos/Zooming.py", "arm_r_t = self.average_rewards[arm] + 2 * np.sqrt(", "arm_r_t = self.average_rewards[arm] + np.sqrt(", ["C11"])
+M("zooming-refine-inequality", "PyXAB/algos/Zooming.py", "            <= self.nu * self.rho ** parent.get_depth()", "            <= self.nu * self.rho ** (parent.get_depth() + 1)", ["C11"])
+M("zooming-refine-phase-stale", "PyXAB/algos/Zooming.py", "            np.sqrt(8 * self.phase / (2 + self.pulled_times[self.best_arm]))\n            <=", "            np.sqrt(8 * 1 / (2 + self.pulled_times[self.best_arm]))\n            <=", ["C11"])
+M("zooming-phase-length", "PyXAB/algos/Zooming.py", "self.next_end_time += 2 ** self.phase", "self.next_end_time += 2 * self.phase", ["C11"])
+M("zooming-argmin-when-tied", "PyXAB/algos/Zooming.py", "            if arm_r_t >= maximum_r_t:", "            if arm_r_t >= maximum_r_t or (self.time > 30 and self.pulled_times[arm] == 0 and False) or (self.time == 40):", ["C11"])
+M("zooming-new-arm-not-centre", "PyXAB/algos/Zooming.py", "        active_arm = point(node.get_cpoint())", "        active_arm = point([x[0] for x in node.get_domain()] if node.get_depth() > 2 else node.get_cpoint())", ["C11"])
+M("zooming-strict-containment", "PyXAB/algos/Zooming.py", "                        point[dim] < child_domain[dim][0]\n                        or point[dim] > child_domain[dim][1]", "                        point[dim] < child_domain[dim][0]\n                        or point[dim] >= child_domain[dim][1]", ["C11"])
+
+# ---- SequOOL (C12)
+M("sequool-budget-h-plus-1", "PyXAB/algos/SequOOL.py", "                            self.budget = math.floor(self.h_max / self.curr_depth)\n                        self.curr_node = max_node",
+  "                            self.budget = math.floor(self.h_max / (self.curr_depth + 1))\n                        self.curr_node = max_node", ["C12"])
+M("sequool-hmax-ceil", "PyXAB/algos/SequOOL.py", "self.h_max = math.floor(n / self.harmonic_series_sum(n))", "self.h_max = math.ceil(n / self.harmonic_series_sum(n))", ["C12"])
+M("sequool-open-min", "PyXAB/algos/SequOOL.py", "                        if node.get_reward() >= max_value:",
+  "                        if node.get_reward() >= max_value or (self.curr_depth == 3 and num == 1):", ["C12"])
+M("sequool-harmonic-off", "PyXAB/algos/SequOOL.py", "        for i in range(1, n + 1):\n            res += 1 / i", "        for i in range(1, n):\n            res += 1 / i", ["C12"])
+M("sequool-skip-last-child", "PyXAB/algos/SequOOL.py", "                    if self.loc == len(max_node.get_children()) - 1:\n                        max_node.open()",
+  "                    if self.loc == len(max_node.get_children()) - 1 or (self.curr_depth == 4 and self.loc == 1):\n                        max_node.open()", ["C12"])
+M("sequool-reopen", "PyXAB/algos/SequOOL.py", "        self.opened = True", "        self.opened = self.depth != 2", ["C12"])
